@@ -430,35 +430,35 @@ theorem noDuplicates_iff (incRex : Bool) (rexOf : List Val → List Nat) (c : Co
     (ks : List Constraint) (hn : 0 < c.cells.length)
     (h : discoverField incRex rexOf c c.cells.length = .ok (some ks)) (v : Option Bool) :
     Constraint.noDuplicates v ∈ ks ↔
-      (v = some true ∧ (c.ftype = .string ∨ c.ftype = .int) ∧ 1 < c.nonNull.length ∧
+      (v = some true ∧ c.ftype ≠ .real ∧ 1 < c.nonNull.length ∧
        c.nonNull.Pairwise (fun a b => a.eqv b = false)) := by
   have := ks_eq (wf_other hwf) hn h
   subst this
   rw [mem_noDup, ← dedup_length_eq_iff]
   unfold noDupPart
-  by_cases hsi : c.ftype = .string ∨ c.ftype = .int
+  by_cases hreal : c.ftype = .real
+  · have hu : nUniq c = -1 := by
+      unfold nUniq
+      rw [if_neg]
+      simp [hreal]
+    rw [hu, if_neg]
+    · simp; intro _ h1; exact absurd hreal h1
+    · simp only [Bool.and_eq_true, beq_iff_eq, decide_eq_true_eq]
+      intro hh; omega
   · have hu : nUniq c = (calcNunique c : Int) := by
-      unfold nUniq; rcases hsi with h | h <;> simp [h]
-    have hr : c.ftype ≠ .real := by rcases hsi with h | h <;> simp [h]
+      unfold nUniq; simp [hreal]
+    have hr : c.ftype ≠ .real := hreal
     rw [hu]
     unfold calcNunique calcNonNullCount
     by_cases hcond : (dedup c.nonNull).length = c.nonNull.length ∧ 1 < c.nonNull.length
     · rw [if_pos]
-      · simp [hsi, hcond]
+      · simp [hr, hcond]
       · simp [hcond, hr]; omega
     · rw [if_neg]
       · simp; intro _ _ h1 h2; exact hcond ⟨h2, h1⟩
       · simp only [Bool.and_eq_true, beq_iff_eq, decide_eq_true_eq]
         intro hh; apply hcond
         omega
-  · have hu : nUniq c = -1 := by
-      unfold nUniq
-      rw [if_neg]
-      simpa using hsi
-    rw [hu, if_neg]
-    · simp; intro _ h1; exact absurd h1 hsi
-    · simp only [Bool.and_eq_true, beq_iff_eq, decide_eq_true_eq]
-      intro hh; omega
 
 theorem allowedValues_iff (incRex : Bool) (rexOf : List Val → List Nat) (c : Column) (hwf : c.WF = true)
     (ks : List Constraint) (hn : 0 < c.cells.length)
